@@ -1213,7 +1213,7 @@ func ruleInplaceKeepsTTL(c *Ctx) {
 		v = stripValue(v)
 		if u, ok := v.(*ssa.UnOp); ok {
 			if fa, ok := u.X.(*ssa.FieldAddr); ok && fieldOf(fa) == fExp {
-				return sameKeyName(fa.X, sk)
+				return sameKeyName(outerBase(fa.X), sk)
 			}
 		}
 		return false
